@@ -968,7 +968,7 @@ def Array(typecode, sequence, lock=True):
 
 class IteratorProxy(BaseProxy):
     if sys.version_info[0] == 3:
-        _exposed = ('__next__', 'send', 'throw', 'close')
+        _exposed_ = ('__next__', 'send', 'throw', 'close')
     else:
         _exposed_ = ('__next__', 'next', 'send', 'throw', 'close')
 
